@@ -89,6 +89,7 @@ V['C04'] = [
     ('length-1 value kept as a view', CORE, '            if np.ndim(f_x) == 1 and np.size(f_x) == 1:\n                return f_x[0]', '            if np.ndim(f_x) >= 1 and np.size(f_x) == 1:\n                return np.squeeze(f_x)', 'F', 'R-HESS-SHAPE'),
 ]
 V['C05'] = [
+    ('Bicomplex constructor clips the real part of the first component', MC, '        self.z1 = np.asanyarray(z1, dtype=dtype)', '        z1 = np.asanyarray(z1, dtype=dtype)\n        self.z1 = np.clip(z1.real, -1e150, 1e150) + 1j * z1.imag', 'F', 'R-ADMISSIBLE'),
     ('Hessian backward passes +h', FD, 'return HessianDifferenceFunctions._forward(f, f_x, x, -h)', 'return HessianDifferenceFunctions._forward(f, f_x, x, h)', 'F', 'R-ADMISSIBLE'),
     ('Hessdiag backward above x', FD, '        partials = [f_x - f(x - hi) for hi in increments]', '        partials = [f_x - f(x + hi) for hi in increments]', 'F', 'R-ADMISSIBLE'),
     ('Jacobian forward below x', FD, 'return np.array([f(x + hi) - f_x for hi in steps])', 'return np.array([f_x - f(x - hi) for hi in steps])', 'F', 'R-ADMISSIBLE'),
